@@ -180,6 +180,8 @@ def effect (i : MInfo) (p c : Addr) (call : Call) (w : World) : Except Err World
     -- the shares leave the (one) validator of the world and reappear on the destination validator, which the world does
     -- not contain; rewards of the source delegation are paid out (BeforeDelegationSharesModified)
     if w.vTok = 0 ∨ w.raw p < w.sharesFor amt then .error .method else
+    -- `BeginRedelegation`: shares worth less than one base unit are refused (ErrTinyRedelegationAmount)
+    if (claim w p).tokensFor ((claim w p).sharesFor amt) = 0 then .error .method else
     let w1 := claim w p
     let r := w1.sharesFor amt
     let out := w1.tokensFor r
